@@ -108,54 +108,83 @@ theorem sat_of_relaxedProps' (Γ : Comps) : ∀ (kvs : List (String × J)) (p : 
 end
 
 
+
 /-! ### the relation "schema s describes Go type t" (what the generator establishes, what soundness needs)
 
-`ok n` says that the component name `n` may be referenced. A reference stands for the declared struct of
-that name; a node has the keywords of the kind switch for the pointer-stripped type, is nullable when the
-type is a pointer (unless it was built by cycle cutting: that is finding #19), and every property is the
-schema of some discovered field of that name. -/
+`tn` is the type-name generator, `ok m` says that the component name `m` may be referenced. A reference stands for
+the declared struct whose generated name it carries; a node has the keywords of the kind switch for the underlying
+type of the pointer-stripped type, is nullable when the type is a pointer (unless it was built by cycle cutting:
+that is finding #19), and every property is the schema of some discovered field of that name (JSON name or `yaml`
+tag). Keywords that the kind does not set are absent. -/
 mutual
-def RelS (Δ : Decls) (ok : String → Prop) : GoType → Sch → Prop
-  | t, .ref n => stripPtr t = .named n ∧ ok n
+def RelS (Δ : Decls) (tn : String → String) (ok : String → Prop) : GoType → Sch → Prop
+  | t, .ref m => ∃ n, under (stripPtr t) = .named n ∧ tn n = m ∧ ok m
   | t, .node ty nl fmt lo hi items props addl cyc =>
       (isPtr t = true → nl = true ∨ cyc = true) ∧
-      (match stripPtr t with
-       | .bool => ty = "boolean"
-       | .int k => ty = "integer" ∧ fmt = kindFmt k ∧ lo = kindLo k ∧ hi = kindHi k
-       | .float _ => ty = "number" ∧ lo = none ∧ hi = none
-       | .string => ty = "string" ∧ fmt = ""
-       | .bytes => ty = "string" ∧ fmt = "byte"
-       | .time => ty = "string" ∧ fmt = "date-time"
-       | .slice e => ty = "array" ∧ (match items with | some it => RelS Δ ok e it | none => False)
-       | .map e => ty = "object" ∧ props = [] ∧ (match addl with | some a => RelS Δ ok e a | none => False)
-       | .struct fs => (ty = "object" ∨ ty = "") ∧ addl = none ∧ RelProps Δ ok (flat fs) props
-       | .named n => (ty = "object" ∨ ty = "") ∧ addl = none ∧ RelProps Δ ok (flat ((lookup n Δ).getD [])) props
-       | .ptr _ => False)
-def RelProps (Δ : Decls) (ok : String → Prop) : List Cand → List (String × Sch) → Prop
+      (match under (stripPtr t) with
+       | .bool => ty = "boolean" ∧ items = none ∧ props = [] ∧ addl = none
+       | .int k => ty = "integer" ∧ fmt = kindFmt k ∧ lo = kindLo k ∧ hi = kindHi k ∧ items = none ∧ props = [] ∧ addl = none
+       | .float _ => ty = "number" ∧ lo = none ∧ hi = none ∧ items = none ∧ props = [] ∧ addl = none
+       | .string => ty = "string" ∧ fmt = "" ∧ items = none ∧ props = [] ∧ addl = none
+       | .bytes => ty = "string" ∧ fmt = "byte" ∧ items = none ∧ props = [] ∧ addl = none
+       | .time => ty = "string" ∧ fmt = "date-time" ∧ items = none ∧ props = [] ∧ addl = none
+       | .array _ _ => ty = "" ∧ items = none ∧ props = [] ∧ addl = none
+       | .slice e =>
+         props = [] ∧ addl = none ∧
+         (if isU8 e = true then ty = "string" ∧ fmt = "byte" ∧ items = none
+          else ty = "array" ∧ RelO Δ tn ok e items)
+       | .map e => ty = "object" ∧ props = [] ∧ items = none ∧ RelO Δ tn ok e addl
+       | .struct fs => (ty = "object" ∨ ty = "") ∧ addl = none ∧ items = none ∧ RelProps Δ tn ok (flat fs) props
+       | .named n => (ty = "object" ∨ ty = "") ∧ addl = none ∧ items = none ∧ RelProps Δ tn ok (flat ((lookup n Δ).getD [])) props
+       | .ptr _ => ty = "" ∧ items = none ∧ props = [] ∧ addl = none   -- not reached (the model's clause for it)
+       | .defd _ _ => False
+       | .recs m =>
+         props = [] ∧
+         (if m = true then ty = "object" ∧ items = none ∧ RelO Δ tn ok (.recs true) addl
+          else ty = "array" ∧ addl = none ∧ RelO Δ tn ok (.recs false) items))
+def RelO (Δ : Decls) (tn : String → String) (ok : String → Prop) : GoType → Option Sch → Prop
+  | _, none => True
+  | e, some s => RelS Δ tn ok e s
+def RelProps (Δ : Decls) (tn : String → String) (ok : String → Prop) : List Cand → List (String × Sch) → Prop
   | _, [] => True
-  | cs, (k, s) :: r => (∃ c, c ∈ cs ∧ c.name = k ∧ RelS Δ ok c.ty s) ∧ RelProps Δ ok cs r
+  | cs, (k, s) :: r => (∃ c, c ∈ cs ∧ (c.name = k ∨ c.yaml = some k) ∧ RelS Δ tn ok c.ty s) ∧ RelProps Δ tn ok cs r
 end
 
 /-- the names the component map resolves -/
 def okΓ (Γ : Comps) (n : String) : Prop := ∃ nd, resolve Γ (.ref n) = some nd
 
-/-- every component describes the declared struct it is named after -/
-def CompsOK (Δ : Decls) (Γ : Comps) : Prop := ∀ n s, lookup n Γ = some s → RelS Δ (okΓ Γ) (.named n) s
+/-- the type-name generator does not identify two declared structs -/
+def TnInj (Δ : Decls) (tn : String → String) : Prop :=
+  ∀ a b, (lookup a Δ).isSome = true → (lookup b Δ).isSome = true → tn a = tn b → a = b
+
+/-- every component describes a declared struct whose generated name is the component's name -/
+def CompsOK (Δ : Decls) (tn : String → String) (Γ : Comps) : Prop :=
+  ∀ m s, lookup m Γ = some s → ∃ n, tn n = m ∧ (lookup n Δ).isSome = true ∧ RelS Δ tn (okΓ Γ) (.named n) s
 
 theorem stripPtr_idem : ∀ (t : GoType), stripPtr (stripPtr t) = stripPtr t
   | .ptr t => by simp only [stripPtr]; exact stripPtr_idem t
-  | .bool | .int _ | .float _ | .string | .bytes | .time | .slice _ | .map _ | .struct _ | .named _ => by simp [stripPtr]
+  | .bool | .int _ | .float _ | .string | .bytes | .time | .slice _ | .map _ | .struct _ | .named _
+  | .defd _ _ | .array _ _ | .recs _ => by simp [stripPtr]
 theorem isPtr_stripPtr : ∀ (t : GoType), isPtr (stripPtr t) = false
   | .ptr t => by simp only [stripPtr]; exact isPtr_stripPtr t
-  | .bool | .int _ | .float _ | .string | .bytes | .time | .slice _ | .map _ | .struct _ | .named _ => by simp [stripPtr, isPtr]
+  | .bool | .int _ | .float _ | .string | .bytes | .time | .slice _ | .map _ | .struct _ | .named _
+  | .defd _ _ | .array _ _ | .recs _ => by simp [stripPtr, isPtr]
+theorem stripPtr_of_not_ptr : ∀ {t : GoType}, isPtr t = false → stripPtr t = t
+  | .ptr t, h => by simp [isPtr] at h
+  | .bool, _ | .int _, _ | .float _, _ | .string, _ | .bytes, _ | .time, _ | .slice _, _ | .map _, _ | .struct _, _ | .named _, _
+  | .defd _ _, _ | .array _ _, _ | .recs _, _ => by simp [stripPtr]
+theorem isPtr_elim : ∀ {t : GoType}, isPtr t = true → ∃ x, t = .ptr x
+  | .ptr t, _ => ⟨t, rfl⟩
+  | .bool, h | .int _, h | .float _, h | .string, h | .bytes, h | .time, h | .slice _, h | .map _, h | .struct _, h | .named _, h
+  | .defd _ _, h | .array _ _, h | .recs _, h => by simp [isPtr] at h
 
-theorem relS_strip {Δ ok t ty nl fmt lo hi it pr ad cyc} (h : RelS Δ ok t (.node ty nl fmt lo hi it pr ad cyc)) :
-    RelS Δ ok (stripPtr t) (.node ty nl fmt lo hi it pr ad cyc) := by
+theorem relS_strip {Δ tn ok t ty nl fmt lo hi it pr ad cyc} (h : RelS Δ tn ok t (.node ty nl fmt lo hi it pr ad cyc)) :
+    RelS Δ tn ok (stripPtr t) (.node ty nl fmt lo hi it pr ad cyc) := by
   simp only [RelS] at h ⊢
   rw [stripPtr_idem, isPtr_stripPtr]
   exact ⟨by simp, h.2⟩
 
-theorem relS_elem {Δ ok t s} (h : RelS Δ ok (.ptr t) s) : RelS Δ ok t s := by
+theorem relS_elem {Δ tn ok t s} (h : RelS Δ tn ok (.ptr t) s) : RelS Δ tn ok t s := by
   cases s with
   | ref n => simpa [RelS, stripPtr] using h
   | node ty nl fmt lo hi it pr ad cyc =>
@@ -170,20 +199,87 @@ theorem resolve_ref_lookup {Γ : Comps} {n : String} {nd : Sch} (h : resolve Γ 
     cases h; exact ⟨heq, _, _, _, _, _, _, _, _, _, rfl⟩
   · cases h
 
-/-- after resolution there is a node that describes the pointer-stripped type -/
-theorem rel_resolve {Δ Γ t s} (hΓ : CompsOK Δ Γ) (h : RelS Δ (okΓ Γ) t s) :
+/-- a node describes a type through its pointer-ness and its kind only -/
+theorem relS_node_congr {Δ tn ok t t' ty nl fmt lo hi it pr ad cyc} (hp : isPtr t' = true → isPtr t = true)
+    (hu : under (stripPtr t) = under (stripPtr t')) (h : RelS Δ tn ok t (.node ty nl fmt lo hi it pr ad cyc)) :
+    RelS Δ tn ok t' (.node ty nl fmt lo hi it pr ad cyc) := by
+  simp only [RelS] at h ⊢
+  rw [← hu]
+  exact ⟨fun hh => h.1 (hp hh), h.2⟩
+
+/-- after resolution there is a node that describes the pointer-stripped type (a reference can only stand at a
+    declared struct: `hd`) -/
+theorem rel_resolve {Δ tn Γ t s} (hΓ : CompsOK Δ tn Γ) (hinj : TnInj Δ tn)
+    (hd : ∀ n, under (stripPtr t) = .named n → (lookup n Δ).isSome = true) (h : RelS Δ tn (okΓ Γ) t s) :
     ∃ ty nl fmt lo hi it pr ad cyc, resolve Γ s = some (.node ty nl fmt lo hi it pr ad cyc) ∧
-      RelS Δ (okΓ Γ) (stripPtr t) (.node ty nl fmt lo hi it pr ad cyc) := by
+      RelS Δ tn (okΓ Γ) (stripPtr t) (.node ty nl fmt lo hi it pr ad cyc) := by
   cases s with
   | node ty nl fmt lo hi it pr ad cyc => exact ⟨ty, nl, fmt, lo, hi, it, pr, ad, cyc, rfl, relS_strip h⟩
-  | ref n =>
+  | ref m =>
     simp only [RelS] at h
-    obtain ⟨hs, nd, hr⟩ := h
+    obtain ⟨n, hs, hm, nd, hr⟩ := h
     obtain ⟨hl, ty, nl, fmt, lo, hi, it, pr, ad, cyc, rfl⟩ := resolve_ref_lookup hr
     refine ⟨ty, nl, fmt, lo, hi, it, pr, ad, cyc, hr, ?_⟩
-    rw [hs]
-    exact hΓ n _ hl
+    obtain ⟨n', hm', hd', hrel⟩ := hΓ m _ hl
+    have : n = n' := hinj n n' (hd n hs) hd' (by rw [hm, hm'])
+    subst this
+    refine relS_node_congr (t := .named n) (by rw [isPtr_stripPtr]; intro hh; cases hh) ?_ hrel
+    rw [stripPtr_idem, hs]; simp [stripPtr, under]
 
+/-! ### kinds of defined types -/
+theorem under_idem : ∀ (t : GoType), under (under t) = under t
+  | .defd _ t => by simp only [under]; exact under_idem t
+  | .bool | .int _ | .float _ | .string | .bytes | .time | .slice _ | .map _ | .struct _ | .named _
+  | .ptr _ | .array _ _ | .recs _ => by simp [under]
+theorem under_ne_defd : ∀ (t : GoType) n x, under t ≠ .defd n x
+  | .defd _ t, n, x => by simp only [under]; exact under_ne_defd t n x
+  | .bool, _, _ | .int _, _, _ | .float _, _, _ | .string, _, _ | .bytes, _, _ | .time, _, _ | .slice _, _, _ | .map _, _, _
+  | .struct _, _, _ | .named _, _, _ | .ptr _, _, _ | .array _ _, _, _ | .recs _, _, _ => by simp [under]
+
+theorem not_ptr_of_under {t u : GoType} (hu : under t = u) (hn : ∀ x, u ≠ .ptr x) : isPtr t = false := by
+  cases t <;> simp [isPtr]
+  rename_i x
+  exact hn x (by simpa [under] using hu.symm)
+
+theorem elemOf_slice : ∀ (t : GoType) e, under t = .slice e → elemOf t = e
+  | .defd _ t, e, h => by simp only [under] at h; simp only [elemOf]; exact elemOf_slice t e h
+  | .slice x, e, h => by simp only [under, GoType.slice.injEq] at h; simp [elemOf, h]
+  | .bool, _, h | .int _, _, h | .float _, _, h | .string, _, h | .bytes, _, h | .time, _, h | .map _, _, h
+  | .struct _, _, h | .named _, _, h | .ptr _, _, h | .array _ _, _, h | .recs _, _, h => by simp [under] at h
+theorem elemOf_map : ∀ (t : GoType) e, under t = .map e → elemOf t = e
+  | .defd _ t, e, h => by simp only [under] at h; simp only [elemOf]; exact elemOf_map t e h
+  | .map x, e, h => by simp only [under, GoType.map.injEq] at h; simp [elemOf, h]
+  | .bool, _, h | .int _, _, h | .float _, _, h | .string, _, h | .bytes, _, h | .time, _, h | .slice _, _, h
+  | .struct _, _, h | .named _, _, h | .ptr _, _, h | .array _ _, _, h | .recs _, _, h => by simp [under] at h
+theorem elemOf_array : ∀ (t : GoType) n e, under t = .array n e → elemOf t = e
+  | .defd _ t, n, e, h => by simp only [under] at h; simp only [elemOf]; exact elemOf_array t n e h
+  | .array _ x, n, e, h => by simp only [under, GoType.array.injEq] at h; simp [elemOf, h.2]
+  | .bool, _, _, h | .int _, _, _, h | .float _, _, _, h | .string, _, _, h | .bytes, _, _, h | .time, _, _, h | .slice _, _, _, h
+  | .struct _, _, _, h | .named _, _, _, h | .ptr _, _, _, h | .map _, _, _, h | .recs _, _, _, h => by simp [under] at h
+
+theorem elemOf_recs : ∀ (t : GoType) m, under t = .recs m → elemOf t = .recs m
+  | .defd _ t, m, h => by simp only [under] at h; simp only [elemOf]; exact elemOf_recs t m h
+  | .recs x, m, h => by simp only [under, GoType.recs.injEq] at h; simp [elemOf, h]
+  | .bool, _, h | .int _, _, h | .float _, _, h | .string, _, h | .bytes, _, h | .time, _, h | .slice _, _, h
+  | .struct _, _, h | .named _, _, h | .ptr _, _, h | .map _, _, h | .array _ _, _, h => by simp [under] at h
+
+theorem isBytesTy_under : ∀ (t : GoType), isBytesTy t = true → under t = .bytes ∨ ∃ e, under t = .slice e ∧ isU8 e = true
+  | .defd _ t, h => by simp only [isBytesTy] at h; simp only [under]; exact isBytesTy_under t h
+  | .bytes, _ => Or.inl (by simp [under])
+  | .slice e, h => Or.inr ⟨e, by simp [under], by simpa [isBytesTy] using h⟩
+  | .bool, h | .int _, h | .float _, h | .string, h | .time, h | .map _, h
+  | .struct _, h | .named _, h | .ptr _, h | .array _ _, h | .recs _, h => by simp [isBytesTy] at h
+
+/-- a schema that describes a non-pointer type whose kind is not "declared struct" is a node -/
+theorem rel_kind {Δ tn ok t s u} (hp : isPtr t = false) (hu : under t = u) (hnn : ∀ n, u ≠ .named n)
+    (h : RelS Δ tn ok t s) : ∃ ty nl fmt lo hi it pr ad cyc, s = .node ty nl fmt lo hi it pr ad cyc := by
+  cases s with
+  | node ty nl fmt lo hi it pr ad cyc => exact ⟨_, _, _, _, _, _, _, _, _, rfl⟩
+  | ref m =>
+    simp only [RelS] at h
+    obtain ⟨n, hs, _⟩ := h
+    rw [stripPtr_of_not_ptr hp] at hs
+    exact absurd (by rw [← hu, hs]) (hnn n)
 
 /-! ### soundness of the encoder against the relation -/
 
@@ -202,8 +298,8 @@ theorem lookup_mem {α} {k : String} {v : α} : ∀ {l : List (String × α)}, l
       · cases h; subst_vars; simp
       · exact List.mem_cons_of_mem _ (lookup_mem h)
 
-theorem relProps_mem {Δ ok cs} : ∀ {p : List (String × Sch)} {k s}, RelProps Δ ok cs p → (k, s) ∈ p →
-    ∃ c, c ∈ cs ∧ c.name = k ∧ RelS Δ ok c.ty s
+theorem relProps_mem {Δ tn ok cs} : ∀ {p : List (String × Sch)} {k s}, RelProps Δ tn ok cs p → (k, s) ∈ p →
+    ∃ c, c ∈ cs ∧ (c.name = k ∨ c.yaml = some k) ∧ RelS Δ tn ok c.ty s
   | [], _, _, _, h => by cases h
   | (k', s') :: r, k, s, hr, h => by
       simp only [RelProps] at hr
@@ -211,30 +307,63 @@ theorem relProps_mem {Δ ok cs} : ∀ {p : List (String × Sch)} {k s}, RelProps
       · cases h; exact hr.1
       · exact relProps_mem hr.2 h
 
-theorem contains_name {xs : List Cand} {y : Cand} (hy : y ∈ xs) : (xs.map (·.name)).contains y.name = true := by
-  simp only [List.contains_eq_mem, List.mem_map, decide_eq_true_eq]
-  exact ⟨y, hy, rfl⟩
+theorem dupNames_append : ∀ {a b : List String}, dupNames (a ++ b) = false →
+    dupNames a = false ∧ dupNames b = false ∧ ∀ k, k ∈ a → k ∈ b → False
+  | [], b, h => ⟨rfl, h, fun _ hk => by cases hk⟩
+  | x :: a, b, h => by
+      have e : dupNames ((x :: a) ++ b) = ((a ++ b).contains x || dupNames (a ++ b)) := rfl
+      rw [e] at h
+      obtain ⟨h1, h2⟩ := Bool.or_eq_false_iff.mp h
+      obtain ⟨ia, ib, idj⟩ := dupNames_append h2
+      have hx : x ∉ a ++ b := by simpa using h1
+      refine ⟨?_, ib, ?_⟩
+      · have e2 : dupNames (x :: a) = (a.contains x || dupNames a) := rfl
+        rw [e2, ia]
+        have : x ∉ a := fun hm => hx (List.mem_append_left _ hm)
+        simp [this]
+      · intro k hk hb
+        rcases List.mem_cons.mp hk with rfl | hk
+        · exact hx (List.mem_append_right _ hb)
+        · exact idj k hk hb
 
-theorem nodup_unique : ∀ {l : List Cand} {c c' : Cand}, dupNames (l.map (·.name)) = false → c ∈ l → c' ∈ l →
-    c.name = c'.name → c = c'
+theorem mem_candNames_name : ∀ {l : List Cand} {c : Cand}, c ∈ l → c.name ∈ candNames l
+  | [], _, h => by cases h
+  | x :: xs, c, h => by
+      simp only [candNames]
+      rcases List.mem_cons.mp h with rfl | h
+      · apply List.mem_append_left; cases c.yaml <;> simp
+      · exact List.mem_append_right _ (mem_candNames_name h)
+theorem mem_candNames_yaml : ∀ {l : List Cand} {c : Cand} {y : String}, c ∈ l → c.yaml = some y → y ∈ candNames l
+  | [], _, _, h, _ => by cases h
+  | x :: xs, c, y, h, hy => by
+      simp only [candNames]
+      rcases List.mem_cons.mp h with rfl | h
+      · apply List.mem_append_left; simp [hy]
+      · exact List.mem_append_right _ (mem_candNames_yaml h hy)
+
+/-- without name clashes a name (JSON name or yaml tag) determines the field -/
+theorem cand_unique : ∀ {l : List Cand} {c c' : Cand}, dupNames (candNames l) = false → c ∈ l → c' ∈ l →
+    (c'.name = c.name ∨ c'.yaml = some c.name) → c = c'
   | [], _, _, _, h, _, _ => by cases h
   | x :: xs, c, c', hd, h, h', hn => by
-      have e : dupNames ((x :: xs).map (·.name)) =
-          ((xs.map (·.name)).contains x.name || dupNames (xs.map (·.name))) := rfl
-      rw [e] at hd
-      obtain ⟨hd1, hd2⟩ := Bool.or_eq_false_iff.mp hd
-      have hnot : ∀ y, y ∈ xs → y.name ≠ x.name := by
-        intro y hy he
-        have := contains_name hy
-        rw [he, hd1] at this
-        cases this
+      simp only [candNames] at hd
+      obtain ⟨_, hd2, hdj⟩ := dupNames_append hd
+      have hxn : x.name ∈ (match x.yaml with | some y => [x.name, y] | none => [x.name]) := by cases x.yaml <;> simp
+      have hxy : ∀ y, x.yaml = some y → y ∈ (match x.yaml with | some y => [x.name, y] | none => [x.name]) := by
+        intro y hy; simp [hy]
       rcases List.mem_cons.mp h with e1 | h1
       · rcases List.mem_cons.mp h' with e2 | h2
         · rw [e1, e2]
-        · exact absurd (by rw [← hn, e1]) (hnot _ h2)
+        · subst e1
+          rcases hn with hn | hn
+          · exact (hdj _ hxn (by rw [← hn]; exact mem_candNames_name h2)).elim
+          · exact (hdj _ hxn (mem_candNames_yaml h2 hn)).elim
       · rcases List.mem_cons.mp h' with e2 | h2
-        · exact absurd (by rw [hn, e2]) (hnot _ h1)
-        · exact nodup_unique hd2 h1 h2 hn
+        · subst e2
+          rcases hn with hn | hn
+          · exact (hdj _ hxn (by rw [hn]; exact mem_candNames_name h1)).elim
+          · exact (hdj _ (hxy _ hn) (mem_candNames_name h1)).elim
+        · exact cand_unique hd2 h1 h2 hn
 
 theorem quotedIn_mem {l : List Cand} {c : Cand} (h : quotedIn l = false) (hc : c ∈ l) :
     (c.quoted && quotable c.ty) = false := by
@@ -257,75 +386,117 @@ theorem satProps_of_forall {rx Γ} {p : List (String × Sch)} : ∀ {kvs : List 
 
 /-- an entry of an encoded object comes from a discovered field of that name, and satisfies every schema
     that describes that field's type (unless `,string` is in effect on it) -/
-def EntryOK (Δ : Decls) (Γ : Comps) (cs : List Cand) (k : String) (j : J) : Prop :=
+def EntryOK (Δ : Decls) (tn : String → String) (Γ : Comps) (cs : List Cand) (k : String) (j : J) : Prop :=
   ∃ c, c ∈ cs ∧ c.name = k ∧
-    ((c.quoted && quotable c.ty) = false → ∀ s, RelS Δ (okΓ Γ) c.ty s → Sat' true Γ s j)
+    ((c.quoted && quotable c.ty) = false → ∀ s, RelS Δ tn (okΓ Γ) c.ty s → Sat' true Γ s j)
 
-theorem struct_sat {Δ Γ} {fs : Fields} {props : List (String × Sch)} {kvs : List (String × J)}
-    (hrel : RelProps Δ (okΓ Γ) (flat fs) props) (hbad : bad2 (flat fs) = false)
-    (hent : ∀ k j, (k, j) ∈ kvs → EntryOK Δ Γ (flat fs) k j) : SatProps true Γ props none kvs := by
+theorem struct_sat {Δ tn Γ} {fs : Fields} {props : List (String × Sch)} {kvs : List (String × J)}
+    (hrel : RelProps Δ tn (okΓ Γ) (flat fs) props) (hbad : bad2 (flat fs) = false)
+    (hent : ∀ k j, (k, j) ∈ kvs → EntryOK Δ tn Γ (flat fs) k j) : SatProps true Γ props none kvs := by
   simp only [bad2, Bool.or_eq_false_iff] at hbad
   apply satProps_of_forall
   intro k j hm s hl
   obtain ⟨c, hc, hn, himp⟩ := hent k j hm
   obtain ⟨c', hc', hn', hr⟩ := relProps_mem hrel (lookup_mem hl)
-  have : c = c' := nodup_unique hbad.2 hc hc' (by rw [hn, hn'])
+  have : c = c' := cand_unique hbad.2 hc hc' (by rw [hn]; exact hn')
   subst this
   exact himp (quotedIn_mem hbad.1 hc) s hr
 
 theorem hered_struct {bad fs} (h : hered bad (.struct fs) = false) : bad (flat fs) = false ∧ heredFs bad fs = false := by
   simpa [hered, Bool.or_eq_false_iff] using h
 
+theorem hered_under_slice (bad : List Cand → Bool) : ∀ (t : GoType) e, under t = .slice e → hered bad t = hered bad e
+  | .defd _ t, e, h => by simp only [under] at h; simp only [hered]; exact hered_under_slice bad t e h
+  | .slice x, e, h => by simp only [under, GoType.slice.injEq] at h; simp [hered, h]
+  | .bool, _, h | .int _, _, h | .float _, _, h | .string, _, h | .bytes, _, h | .time, _, h | .map _, _, h
+  | .struct _, _, h | .named _, _, h | .ptr _, _, h | .array _ _, _, h | .recs _, _, h => by simp [under] at h
+theorem hered_under_map (bad : List Cand → Bool) : ∀ (t : GoType) e, under t = .map e → hered bad t = hered bad e
+  | .defd _ t, e, h => by simp only [under] at h; simp only [hered]; exact hered_under_map bad t e h
+  | .map x, e, h => by simp only [under, GoType.map.injEq] at h; simp [hered, h]
+  | .bool, _, h | .int _, _, h | .float _, _, h | .string, _, h | .bytes, _, h | .time, _, h | .slice _, _, h
+  | .struct _, _, h | .named _, _, h | .ptr _, _, h | .array _ _, _, h | .recs _, _, h => by simp [under] at h
+
+theorem satItems_any {rx Γ s} : ∀ (xs : List J), (∀ x, x ∈ xs → Sat' rx Γ s x) → SatItems rx Γ s xs
+  | [], _ => by simp [SatItems]
+  | x :: xs, h => by
+      simp only [SatItems]
+      exact ⟨h x (by simp), satItems_any xs (fun y hy => h y (List.mem_cons_of_mem _ hy))⟩
+
 section Sound
-variable (Δ : Decls) (Γ : Comps) (hΓ : CompsOK Δ Γ) (hΔ : CleanΔ bad2 Δ)
-include hΓ hΔ
+variable (Δ : Decls) (tn : String → String) (Γ : Comps) (hΓ : CompsOK Δ tn Γ) (hinj : TnInj Δ tn) (hΔ : CleanΔ bad2 Δ)
+include hΓ hinj hΔ
 
 mutual
 theorem sound_val : ∀ (v : GoVal) (t : GoType) (s : Sch), hasTypeB Δ t v = true → hered bad2 t = false →
-    RelS Δ (okΓ Γ) t s → Sat' true Γ s (encode Δ t v)
+    RelS Δ tn (okΓ Γ) t s → Sat' true Γ s (encode Δ t v)
   | .b x, t, s, ht, hh, hr => by
-      obtain ⟨ty, nl, fmt, lo, hi, it, pr, ad, cyc, hres, hn⟩ := rel_resolve hΓ hr
-      cases t <;> simp [hasTypeB] at ht
-      simp only [encode, Sat', hres]
-      simp only [RelS, stripPtr] at hn
-      simp [TyOK, hn.2]
+      simp only [hasTypeB] at ht
+      cases hu : under t with
+      | bool =>
+        have hp := not_ptr_of_under hu (by intro x; simp)
+        obtain ⟨ty, nl, fmt, lo, hi, it, pr, ad, cyc, rfl⟩ := rel_kind hp hu (by intro n; simp) hr
+        simp only [RelS, stripPtr_of_not_ptr hp, hu] at hr
+        simp only [encode, Sat', resolve]
+        simp [TyOK, hr.2.1]
+      | _ => simp [hu] at ht
   | .i n, t, s, ht, hh, hr => by
-      obtain ⟨ty, nl, fmt, lo, hi, it, pr, ad, cyc, hres, hn⟩ := rel_resolve hΓ hr
-      cases t <;> simp [hasTypeB] at ht
-      rename_i k
-      simp only [encode, Sat', hres]
-      simp only [RelS, stripPtr] at hn
-      obtain ⟨_, rfl, rfl, rfl, rfl⟩ := hn
-      simp only [inRange, decide_eq_true_eq] at ht
-      cases k <;>
-        simp [NumOK, GeOpt, LeOpt, fmtLo, fmtHi, kindFmt, kindLo, kindHi, intLo, intHi] at ht ⊢ <;> omega
+      simp only [hasTypeB] at ht
+      cases hu : under t with
+      | int k =>
+        simp only [hu] at ht
+        have hp := not_ptr_of_under hu (by intro x; simp)
+        obtain ⟨ty, nl, fmt, lo, hi, it, pr, ad, cyc, rfl⟩ := rel_kind hp hu (by intro n; simp) hr
+        simp only [RelS, stripPtr_of_not_ptr hp, hu] at hr
+        simp only [encode, Sat', resolve]
+        obtain ⟨_, rfl, rfl, rfl, rfl, _⟩ := hr
+        simp only [inRange, decide_eq_true_eq] at ht
+        cases k <;>
+          simp [NumOK, GeOpt, LeOpt, fmtLo, fmtHi, kindFmt, kindLo, kindHi, intLo, intHi] at ht ⊢ <;> omega
+      | _ => simp [hu] at ht
   | .f m e, t, s, ht, hh, hr => by
-      obtain ⟨ty, nl, fmt, lo, hi, it, pr, ad, cyc, hres, hn⟩ := rel_resolve hΓ hr
-      cases t <;> simp [hasTypeB] at ht
-      simp only [encode, Sat', hres]
-      simp only [RelS, stripPtr] at hn
-      obtain ⟨_, rfl, rfl, rfl⟩ := hn
-      simp [NumOK, GeOpt, LeOpt]
+      simp only [hasTypeB] at ht
+      cases hu : under t with
+      | float b =>
+        have hp := not_ptr_of_under hu (by intro x; simp)
+        obtain ⟨ty, nl, fmt, lo, hi, it, pr, ad, cyc, rfl⟩ := rel_kind hp hu (by intro n; simp) hr
+        simp only [RelS, stripPtr_of_not_ptr hp, hu] at hr
+        simp only [encode, Sat', resolve]
+        obtain ⟨_, rfl, rfl, rfl, _⟩ := hr
+        simp [NumOK, GeOpt, LeOpt]
+      | _ => simp [hu] at ht
   | .s x, t, s, ht, hh, hr => by
-      obtain ⟨ty, nl, fmt, lo, hi, it, pr, ad, cyc, hres, hn⟩ := rel_resolve hΓ hr
-      cases t <;> simp [hasTypeB] at ht
-      simp only [encode, Sat', hres]
-      simp only [RelS, stripPtr] at hn
-      obtain ⟨_, rfl, rfl⟩ := hn
-      simp [StrOK, TyOK]
+      simp only [hasTypeB] at ht
+      cases hu : under t with
+      | string =>
+        have hp := not_ptr_of_under hu (by intro x; simp)
+        obtain ⟨ty, nl, fmt, lo, hi, it, pr, ad, cyc, rfl⟩ := rel_kind hp hu (by intro n; simp) hr
+        simp only [RelS, stripPtr_of_not_ptr hp, hu] at hr
+        simp only [encode, Sat', resolve]
+        obtain ⟨_, rfl, rfl, _⟩ := hr
+        simp [StrOK, TyOK]
+      | _ => simp [hu] at ht
   | .bytes x, t, s, ht, hh, hr => by
-      obtain ⟨ty, nl, fmt, lo, hi, it, pr, ad, cyc, hres, hn⟩ := rel_resolve hΓ hr
-      cases t <;> simp [hasTypeB] at ht
-      simp only [encode, Sat', hres]
-      simp only [RelS, stripPtr] at hn
-      obtain ⟨_, rfl, rfl⟩ := hn
-      simp [StrOK, TyOK, ht]
+      simp only [hasTypeB, Bool.and_eq_true] at ht
+      rcases isBytesTy_under t ht.1 with hu | ⟨e, hu, h8⟩
+      · have hp := not_ptr_of_under hu (by intro x; simp)
+        obtain ⟨ty, nl, fmt, lo, hi, it, pr, ad, cyc, rfl⟩ := rel_kind hp hu (by intro n; simp) hr
+        simp only [RelS, stripPtr_of_not_ptr hp, hu] at hr
+        simp only [encode, Sat', resolve]
+        obtain ⟨_, rfl, rfl, _⟩ := hr
+        simp [StrOK, TyOK, ht.2]
+      · have hp := not_ptr_of_under hu (by intro x; simp)
+        obtain ⟨ty, nl, fmt, lo, hi, it, pr, ad, cyc, rfl⟩ := rel_kind hp hu (by intro n; simp) hr
+        simp only [RelS, stripPtr_of_not_ptr hp, hu, h8, if_true] at hr
+        simp only [encode, Sat', resolve]
+        obtain ⟨_, _, _, rfl, rfl, _⟩ := hr
+        simp [StrOK, TyOK, ht.2]
   | .time x, t, s, ht, hh, hr => by
-      obtain ⟨ty, nl, fmt, lo, hi, it, pr, ad, cyc, hres, hn⟩ := rel_resolve hΓ hr
       cases t <;> simp [hasTypeB] at ht
-      simp only [encode, Sat', hres]
-      simp only [RelS, stripPtr] at hn
-      obtain ⟨_, rfl, rfl⟩ := hn
+      obtain ⟨ty, nl, fmt, lo, hi, it, pr, ad, cyc, rfl⟩ :=
+        rel_kind (t := .time) (u := .time) (by simp [isPtr]) (by simp [under]) (by intro n; simp) hr
+      simp only [RelS, stripPtr, under] at hr
+      simp only [encode, Sat', resolve]
+      obtain ⟨_, rfl, rfl, _⟩ := hr
       simp [StrOK, TyOK, ht]
   | .nil, t, s, ht, hh, hr => by
       simp only [hasTypeB] at ht
@@ -339,41 +510,84 @@ theorem sound_val : ∀ (v : GoVal) (t : GoType) (s : Sch), hasTypeB Δ t v = tr
         · exact Or.inr ⟨trivial, h⟩
   | .ref v, t, s, ht, hh, hr => by
       simp only [hasTypeB, Bool.and_eq_true] at ht
-      cases t <;> simp [isPtr] at ht
-      rename_i t'
+      obtain ⟨t', rfl⟩ := isPtr_elim ht.1
       simp only [elemOf] at ht
       simp only [encode, elemOf]
-      exact sound_val v t' s ht (by simpa [hered] using hh) (relS_elem hr)
+      exact sound_val v t' s ht.2 (by simpa [hered] using hh) (relS_elem hr)
   | .slice vs, t, s, ht, hh, hr => by
-      obtain ⟨ty, nl, fmt, lo, hi, it, pr, ad, cyc, hres, hn⟩ := rel_resolve hΓ hr
-      cases t <;> simp [hasTypeB] at ht
-      rename_i e
-      simp only [encode, Sat', hres, elemOf]
-      simp only [RelS, stripPtr] at hn
-      obtain ⟨_, rfl, hit⟩ := hn
-      cases it with
-      | none => cases hit
-      | some it' =>
-        exact ⟨by simp [TyOK], sound_list vs e it' ht (by simpa [hered] using hh) hit⟩
+      simp only [hasTypeB] at ht
+      cases hu : under t with
+      | slice e =>
+        simp only [hu, Bool.and_eq_true, Bool.not_eq_true'] at ht
+        have hp := not_ptr_of_under hu (by intro x; simp)
+        obtain ⟨ty, nl, fmt, lo, hi, it, pr, ad, cyc, rfl⟩ := rel_kind hp hu (by intro n; simp) hr
+        simp only [RelS, stripPtr_of_not_ptr hp, hu, ht.1, Bool.false_eq_true, if_false] at hr
+        simp only [encode, Sat', resolve, elemOf_slice t e hu]
+        obtain ⟨_, _, _, rfl, hit⟩ := hr
+        refine ⟨by simp [TyOK], ?_⟩
+        cases it with
+        | none => trivial
+        | some it' => exact sound_list vs e it' ht.2 (by rw [← hered_under_slice bad2 t e hu]; exact hh) (by simpa [RelO] using hit)
+      | array n e =>
+        have hp := not_ptr_of_under hu (by intro x; simp)
+        obtain ⟨ty, nl, fmt, lo, hi, it, pr, ad, cyc, rfl⟩ := rel_kind hp hu (by intro n; simp) hr
+        simp only [RelS, stripPtr_of_not_ptr hp, hu] at hr
+        simp only [encode, Sat', resolve]
+        obtain ⟨_, rfl, rfl, _⟩ := hr
+        exact ⟨by simp [TyOK], trivial⟩
+      | recs m =>
+        cases m with
+        | true => simp [hu] at ht
+        | false =>
+          simp only [hu] at ht
+          have hp := not_ptr_of_under hu (by intro x; simp)
+          obtain ⟨ty, nl, fmt, lo, hi, it, pr, ad, cyc, rfl⟩ := rel_kind hp hu (by intro n; simp) hr
+          simp only [RelS, stripPtr_of_not_ptr hp, hu, Bool.false_eq_true, if_false] at hr
+          simp only [encode, Sat', resolve, elemOf_recs t false hu]
+          obtain ⟨_, _, rfl, _, hit⟩ := hr
+          refine ⟨by simp [TyOK], ?_⟩
+          cases it with
+          | none => trivial
+          | some it' => exact sound_list vs (.recs false) it' ht (by simp [hered]) (by simpa [RelO] using hit)
+      | _ => simp [hu] at ht
   | .map kvs, t, s, ht, hh, hr => by
-      obtain ⟨ty, nl, fmt, lo, hi, it, pr, ad, cyc, hres, hn⟩ := rel_resolve hΓ hr
-      cases t <;> simp [hasTypeB] at ht
-      rename_i e
-      simp only [encode, Sat', hres, elemOf]
-      simp only [RelS, stripPtr] at hn
-      obtain ⟨_, rfl, rfl, had⟩ := hn
-      cases ad with
-      | none => cases had
-      | some a =>
-        exact ⟨by simp [TyOK], sound_kv kvs e a ht (by simpa [hered] using hh) had⟩
+      simp only [hasTypeB] at ht
+      cases hu : under t with
+      | map e =>
+        simp only [hu] at ht
+        have hp := not_ptr_of_under hu (by intro x; simp)
+        obtain ⟨ty, nl, fmt, lo, hi, it, pr, ad, cyc, rfl⟩ := rel_kind hp hu (by intro n; simp) hr
+        simp only [RelS, stripPtr_of_not_ptr hp, hu] at hr
+        simp only [encode, Sat', resolve, elemOf_map t e hu]
+        obtain ⟨_, rfl, rfl, _, had⟩ := hr
+        refine ⟨by simp [TyOK], ?_⟩
+        cases ad with
+        | none => exact satProps_of_forall (fun k j _ s hl => by simp [lookup] at hl)
+        | some a => exact sound_kv kvs e a ht (by rw [← hered_under_map bad2 t e hu]; exact hh) (by simpa [RelO] using had)
+      | recs m =>
+        cases m with
+        | false => simp [hu] at ht
+        | true =>
+          simp only [hu] at ht
+          have hp := not_ptr_of_under hu (by intro x; simp)
+          obtain ⟨ty, nl, fmt, lo, hi, it, pr, ad, cyc, rfl⟩ := rel_kind hp hu (by intro n; simp) hr
+          simp only [RelS, stripPtr_of_not_ptr hp, hu, if_true] at hr
+          simp only [encode, Sat', resolve, elemOf_recs t true hu]
+          obtain ⟨_, rfl, rfl, _, had⟩ := hr
+          refine ⟨by simp [TyOK], ?_⟩
+          cases ad with
+          | none => exact satProps_of_forall (fun k j _ s hl => by simp [lookup] at hl)
+          | some a => exact sound_kv kvs (.recs true) a ht (by simp [hered]) (by simpa [RelO] using had)
+      | _ => simp [hu] at ht
   | .struct vs, t, s, ht, hh, hr => by
-      obtain ⟨ty, nl, fmt, lo, hi, it, pr, ad, cyc, hres, hn⟩ := rel_resolve hΓ hr
       cases t <;> simp only [hasTypeB] at ht <;> try (cases ht)
       · rename_i fs
+        obtain ⟨ty, nl, fmt, lo, hi, it, pr, ad, cyc, hres, hn⟩ :=
+          rel_resolve hΓ hinj (by intro n h; simp [stripPtr, under] at h) hr
         obtain ⟨hb, hfs⟩ := hered_struct hh
         simp only [encode, Sat', hres, fieldsOf]
-        simp only [RelS, stripPtr] at hn
-        obtain ⟨_, hty, rfl, hrel⟩ := hn
+        simp only [RelS, stripPtr, under] at hn
+        obtain ⟨_, hty, rfl, _, hrel⟩ := hn
         refine ⟨by rcases hty with h | h <;> simp [TyOK, h], ?_⟩
         exact struct_sat hrel hb (sound_fs vs fs _ [] 0 0 ht hfs)
       · rename_i n
@@ -381,21 +595,23 @@ theorem sound_val : ∀ (v : GoVal) (t : GoType) (s : Sch), hasTypeB Δ t v = tr
         | none => simp [hl] at ht
         | some fs =>
           simp only [hl] at ht
+          obtain ⟨ty, nl, fmt, lo, hi, it, pr, ad, cyc, hres, hn⟩ :=
+            rel_resolve hΓ hinj (by intro n' h; simp only [stripPtr, under, GoType.named.injEq] at h; subst h; simp [hl]) hr
           obtain ⟨hb, hfs⟩ := hΔ n fs hl
           simp only [encode, Sat', hres, fieldsOf, hl, Option.getD]
-          simp only [RelS, stripPtr, hl, Option.getD] at hn
-          obtain ⟨_, hty, rfl, hrel⟩ := hn
+          simp only [RelS, stripPtr, under, hl, Option.getD] at hn
+          obtain ⟨_, hty, rfl, _, hrel⟩ := hn
           refine ⟨by rcases hty with h | h <;> simp [TyOK, h], ?_⟩
           exact struct_sat hrel hb (sound_fs vs fs _ [] 0 0 ht hfs)
 theorem sound_list : ∀ (vs : List GoVal) (t : GoType) (s : Sch), hasTypeL Δ t vs = true → hered bad2 t = false →
-    RelS Δ (okΓ Γ) t s → SatItems true Γ s (encodeL Δ t vs)
+    RelS Δ tn (okΓ Γ) t s → SatItems true Γ s (encodeL Δ t vs)
   | [], _, _, _, _, _ => by simp [encodeL, SatItems]
   | v :: vs, t, s, ht, hh, hr => by
       simp only [hasTypeL, Bool.and_eq_true] at ht
       simp only [encodeL, SatItems]
       exact ⟨sound_val v t s ht.1 hh hr, sound_list vs t s ht.2 hh hr⟩
 theorem sound_kv : ∀ (kvs : List (String × GoVal)) (t : GoType) (s : Sch), hasTypeKV Δ t kvs = true →
-    hered bad2 t = false → RelS Δ (okΓ Γ) t s → SatProps true Γ [] (some s) (encodeKV Δ t kvs)
+    hered bad2 t = false → RelS Δ tn (okΓ Γ) t s → SatProps true Γ [] (some s) (encodeKV Δ t kvs)
   | [], _, _, _, _, _ => by simp [encodeKV, SatProps]
   | (k, v) :: r, t, s, ht, hh, hr => by
       simp only [hasTypeKV, Bool.and_eq_true] at ht
@@ -403,14 +619,14 @@ theorem sound_kv : ∀ (kvs : List (String × GoVal)) (t : GoType) (s : Sch), ha
       exact ⟨sound_val v t s ht.1 hh hr, sound_kv r t s ht.2 hh hr⟩
 theorem sound_fs : ∀ (vs : List GoVal) (fs : Fields) (dom : List (List Nat)) (path : List Nat) (idx depth : Nat),
     hasTypeFs Δ fs vs = true → heredFs bad2 fs = false →
-    ∀ k j, (k, j) ∈ encodeFs Δ dom path idx fs vs → EntryOK Δ Γ (flatFs depth path idx fs) k j
+    ∀ k j, (k, j) ∈ encodeFs Δ dom path idx fs vs → EntryOK Δ tn Γ (flatFs depth path idx fs) k j
   | [], fs, _, _, _, _, _, _, k, j, hm => by cases fs <;> simp [encodeFs] at hm
   | v :: vs, [], _, _, _, _, _, _, k, j, hm => by simp [encodeFs] at hm
   | v :: vs, (m, t) :: fs, dom, path, idx, depth, ht, hh, k, j, hm => by
       simp only [hasTypeFs, Bool.and_eq_true] at ht
       simp only [heredFs, Bool.or_eq_false_iff] at hh
       simp only [encodeFs, List.mem_append] at hm
-      have lift : ∀ {l r : List Cand}, EntryOK Δ Γ l k j ∨ EntryOK Δ Γ r k j → EntryOK Δ Γ (l ++ r) k j := by
+      have lift : ∀ {l r : List Cand}, EntryOK Δ tn Γ l k j ∨ EntryOK Δ tn Γ r k j → EntryOK Δ tn Γ (l ++ r) k j := by
         intro l r h
         rcases h with ⟨c, hc, h⟩ | ⟨c, hc, h⟩
         · exact ⟨c, List.mem_append_left _ hc, h⟩
@@ -423,10 +639,22 @@ theorem sound_fs : ∀ (vs : List GoVal) (fs : Fields) (dom : List (List Nat)) (
         · simp [h1] at hm
         · by_cases h2 : (m.embedded && !m.hasTag) = true
           · simp only [h1, h2, if_true, if_false, Bool.false_eq_true] at hm ⊢
-            exact sound_emb v t dom (path ++ [idx]) (depth + 1) true ht.1 hh.1 k j hm
-          · by_cases h3 : (!m.exported) = true
-            · simp [h1, h2, h3] at hm
-            · simp only [h1, h2, h3, if_false, Bool.false_eq_true] at hm ⊢
+            by_cases h4 : isStructish t = true
+            · simp only [h4, if_true] at hm ⊢
+              exact sound_emb v t dom (path ++ [idx]) (depth + 1) true ht.1 hh.1 k j hm
+            · simp only [h4, if_false, Bool.false_eq_true] at hm ⊢
+              by_cases h5 : m.exported = true
+              · simp only [h5, Bool.true_and, if_true] at hm ⊢
+                split at hm
+                · simp only [List.mem_singleton, Prod.mk.injEq] at hm
+                  obtain ⟨rfl, rfl⟩ := hm
+                  refine ⟨_, List.mem_singleton.mpr rfl, rfl, ?_⟩
+                  intro _ s hr
+                  exact sound_val v t s ht.1 hh.1 hr
+                · cases hm
+              · simp [h5] at hm
+          · by_cases h3 : m.exported = true
+            · simp only [h1, h2, h3, if_false, Bool.false_eq_true, Bool.not_true, Bool.false_and] at hm ⊢
               split at hm
               · simp only [List.mem_singleton, Prod.mk.injEq] at hm
                 obtain ⟨rfl, rfl⟩ := hm
@@ -436,11 +664,12 @@ theorem sound_fs : ∀ (vs : List GoVal) (fs : Fields) (dom : List (List Nat)) (
                 simp only [hq, Bool.false_eq_true, if_false]
                 exact sound_val v t s ht.1 hh.1 hr
               · cases hm
+            · simp [h1, h2, h3] at hm
       · right
         exact sound_fs vs fs dom path (idx + 1) depth ht.2 hh.2 k j hm
 theorem sound_emb : ∀ (v : GoVal) (t : GoType) (dom : List (List Nat)) (path : List Nat) (depth : Nat) (ap : Bool),
     hasTypeB Δ t v = true → hered bad2 t = false →
-    ∀ k j, (k, j) ∈ encodeEmb Δ dom path ap t v → EntryOK Δ Γ (flatEmb depth path ap t) k j
+    ∀ k j, (k, j) ∈ encodeEmb Δ dom path ap t v → EntryOK Δ tn Γ (flatEmb depth path ap t) k j
   | .struct vs, t, dom, path, depth, ap, ht, hh, k, j, hm => by
       cases t <;> simp only [encodeEmb] at hm <;> try (cases hm)
       rename_i fs
@@ -469,7 +698,6 @@ theorem sound_emb : ∀ (v : GoVal) (t : GoType) (dom : List (List Nat)) (path :
 end
 end Sound
 
-
 /-! ### from the per-class exclusion predicates to the hypotheses of `sound_val` -/
 mutual
 theorem hered_or (a b : List Cand → Bool) : ∀ (t : GoType),
@@ -477,10 +705,12 @@ theorem hered_or (a b : List Cand → Bool) : ∀ (t : GoType),
   | .ptr t => by simp only [hered]; exact hered_or a b t
   | .slice t => by simp only [hered]; exact hered_or a b t
   | .map t => by simp only [hered]; exact hered_or a b t
+  | .defd _ t => by simp only [hered]; exact hered_or a b t
+  | .array _ t => by simp only [hered]; exact hered_or a b t
   | .struct fs => by
       simp only [hered, heredFs_or a b fs]
       cases a (flat fs) <;> cases b (flat fs) <;> cases heredFs a fs <;> cases heredFs b fs <;> rfl
-  | .bool | .int _ | .float _ | .string | .bytes | .time | .named _ => by simp [hered]
+  | .bool | .int _ | .float _ | .string | .bytes | .time | .named _ | .recs _ => by simp [hered]
 theorem heredFs_or (a b : List Cand → Bool) : ∀ (fs : Fields),
     heredFs (fun cs => a cs || b cs) fs = (heredFs a fs || heredFs b fs)
   | [] => by simp [heredFs]
